@@ -256,7 +256,8 @@ func main() {
 		}
 		fp := &fakeProducer{in: make(chan *sarama.ProducerMessage)}
 		kp.SetSaramaProducer(fp)
-		kc := consumer.NewKafkaConsumer(consumer.ConsumerInput{KafkaTopic: topic, KafkaProtoSchema: sc.mk(), MsgDelimitWithLen: true})
+		consMsg := sc.mk()
+		kc := consumer.NewKafkaConsumer(consumer.ConsumerInput{KafkaTopic: topic, KafkaProtoSchema: consMsg, MsgDelimitWithLen: true})
 		w.Reset(vt.Ev{"topic": topic, "schema": sc.name})
 		msgCh := make(chan *entities.Message)
 		pubDone := make(chan struct{})
@@ -273,9 +274,8 @@ func main() {
 				}
 				ev["wireok"] = ok
 				ev["fields"] = vt.Ev{"nums": nums, "strs": strMapB(strs)}
-				cm := sc.mk()
-				kc2 := consumer.NewKafkaConsumer(consumer.ConsumerInput{KafkaTopic: topic, KafkaProtoSchema: cm, MsgDelimitWithLen: true})
-				_ = kc
+				// ONE consumer (and one schema object) decodes every payload of the stream, as a real consumer does
+				cm, kc2 := consMsg, kc
 				func() {
 					defer func() {
 						if rec := recover(); rec != nil {
